@@ -2,3 +2,5 @@
 //! the `_verif` feature; add-only, used by the out-of-tree verification harness.
 
 pub use crate::ln::channel::verif_hooks as channel;
+pub use crate::chain::onchaintx::verif_hooks as onchaintx;
+pub use crate::chain::package::verif_hooks as package;
